@@ -367,6 +367,7 @@ class Facts:
         if os.environ.get('VF_NO_THREAD') != '1':
             import inline
             inline.thread_bools(self)
+            inline.canonical_field_names(self)
 
     def fatfs_fns(self):
         return [f for f in self.fns.values() if f.crate == 'fatfs']
